@@ -279,7 +279,7 @@ class FusedBlockwiseLayer:
         # inner Task (``Task.__eq__``) that dominates the derivation ~10x on large
         # contractions; the fused subgraph is uniform by construction, the same
         # bet ``_validate_broadcast`` makes on the broadcast path just above.
-        for bid in self._probe_blocks(numblocks, self.expr.chunks):
+        for bid in self._probe_blocks(numblocks, self._member_layouts(numblocks)):
             if self._canon_fingerprint(e._task((e._name, *bid), bid)) != canon0:
                 return None
 
@@ -342,7 +342,7 @@ class FusedBlockwiseLayer:
             return None
         canon0 = self._canon_fingerprint(ref_task)
         n_sites = None
-        for bid in self._probe_blocks(numblocks, self.expr.chunks):
+        for bid in self._probe_blocks(numblocks, self._member_layouts(numblocks)):
             task = e._task((e._name, *bid), bid)
             if task.func is not _execute_subgraph or len(task.args) < 3:
                 return None
@@ -471,7 +471,7 @@ class FusedBlockwiseLayer:
         # Validate on probes: block-independence AND that the projections
         # reproduce the exact reads. Catches a mis-inferred projection before it
         # can emit a wrong graph.
-        for bid in self._probe_blocks(nb, self.expr.chunks):
+        for bid in self._probe_blocks(nb, self._member_layouts(nb)):
             t = e._task((e._name, *bid), bid)
             if t.func is not _execute_subgraph or self._canon_fingerprint(t) != canon0:
                 return None
@@ -622,7 +622,7 @@ class FusedBlockwiseLayer:
         # exact reads and literal values.
         hole = "__seed_hole__"
         canon0_holed = self._hole_fingerprint(canon0, seeds, hole)
-        for bid in self._probe_blocks(nb, self.expr.chunks):
+        for bid in self._probe_blocks(nb, self._member_layouts(nb)):
             t = e._task((e._name, *bid), bid)
             if t.func is not _execute_subgraph or len(t.args) < 3:
                 return None
@@ -739,7 +739,7 @@ class FusedBlockwiseLayer:
 
     def _validate_broadcast(self, canon0, sources, numblocks):
         e = self.expr
-        for bid in self._probe_blocks(numblocks, self.expr.chunks):
+        for bid in self._probe_blocks(numblocks, self._member_layouts(numblocks)):
             task = e._task((e._name, *bid), bid)
             if task.func is not _execute_subgraph:
                 return False
@@ -1091,12 +1091,20 @@ class FusedBlockwiseLayer:
                     b[i] = v
                     probes.add(tuple(b))
         probes.add(tuple(min(i, n - 1) for i, n in enumerate(numblocks)))
-        if chunks is not None and len(chunks) == len(numblocks):
+        # ``chunks`` is one layout or a list of layouts (the output's and those of
+        # the fused members on the same grid: the output of a per-block reduction
+        # is uniform while the creation op under it is not).
+        layouts = [chunks] if chunks and not isinstance(chunks, list) else (chunks or [])
+        for layout in layouts:
+            if layout is None or len(layout) != len(numblocks):
+                continue
             # A fused subgraph can depend on the block's *size* (a creation op
             # sized per block): probe one block of every distinct size per axis,
             # or an odd-sized block between the sampled ones inherits block 0's
             # subgraph.
-            for i, sizes in enumerate(chunks):
+            for i, sizes in enumerate(layout):
+                if len(sizes) != numblocks[i]:
+                    continue
                 seen = set()
                 for v, size in enumerate(sizes):
                     if size != size or size in seen:  # nan or already probed
@@ -1106,3 +1114,16 @@ class FusedBlockwiseLayer:
                     b[i] = v
                     probes.add(tuple(b))
         return probes
+
+    def _member_layouts(self, numblocks):
+        """The output layout plus the layouts of the fused members that live on
+        the same block grid."""
+        layouts = [self.expr.chunks]
+        for member in getattr(self.expr, "exprs", ()):
+            try:
+                ch = member.chunks
+            except Exception:
+                continue
+            if len(ch) == len(numblocks) and all(len(c) == n for c, n in zip(ch, numblocks)):
+                layouts.append(ch)
+        return layouts
